@@ -862,16 +862,22 @@ class FuncEmitter:
                 idxs = [None] * mt[1]
             else:
                 idxs = [(ev[1] if ev[0] == 'int' else None) for (et, ev) in mv[1]]
+            def lane(opnd, expr, j):
+                if opnd[0] == 'vec':
+                    # constant operand: evaluate the selected lane only (its other lanes may be poison and are never observed)
+                    et_, ev_ = opnd[1][j]
+                    return self.val(ev_, et_)
+                return '%s.e[%d]' % (expr, j)
             for i, ix in enumerate(idxs):
                 if ix is None:
                     e = self.undef(m.resolve(vt[2]), 'Q')
                 elif ix < n:
-                    e = '%s.e[%d]' % (a, ix)
+                    e = lane(ins.ops[0], a, ix)
                 else:
                     if b is None:
                         e = self.undef(m.resolve(vt[2]), 'Q')
                     else:
-                        e = '%s.e[%d]' % (b, ix - n)
+                        e = lane(ins.ops[1], b, ix - n)
                 self.out.append('%s.e[%d] = %s;' % (self.lname(ins.res), i, e))
             return
         if op == 'call':
@@ -1247,13 +1253,6 @@ class FuncEmitter:
             self.out.append('%s = %s;' % (r, A[0]))
             self.out.append('%s.e[0] = (%s.e[0] %s %s.e[0]) ? %s.e[0] : %s.e[0];' % (r, A[0], c, A[1], A[0], A[1]))
             return
-        if short.endswith('.ss') and len(args) > 1 and args[1][1][0] == 'vec':
-            # scalar (.ss) forms read lane 0 of the second source only; clang folds the other lanes of a constant operand to poison:
-            # build that operand from its lane 0 alone so that the never-read poison lanes do not flag the T-check input as skipped
-            vt = self.mod.resolve(args[1][0])
-            (et0, ev0) = args[1][1][1][0]
-            A = list(A)
-            A[1] = '((%s){{%s}})' % (self.ctx.ctype(vt), ', '.join([self.val(ev0, et0)] + [self.undef(self.mod.resolve(vt[2]), 'Q')] * (vt[1] - 1)))
         if short in ('sse.cmp.ss', 'sse.cmp.ps'):
             if imm(2) > 7:
                 raise Unsupported('AVX comparison predicate %d of %s' % (imm(2), name))
